@@ -98,7 +98,7 @@ pub const LABELS: &[i64] = &[
 
 pub const ALGS: &[i64] = &[-7, -35, -36, -8, 1, 3, 5, 24, -65535, 0, -260];
 pub const HEADER_PARAMS: &[i64] = &[1, 2, 3, 4, 5, 6, 7, 9, 10, 32, 33, 34, 35, 256, 257, 0];
-pub const CONTENT_FORMATS: &[i64] = &[0, 16, 18, 42, 60, 61, 101, 11544];
+pub const CONTENT_FORMATS: &[i64] = &[0, 16, 17, 18, 42, 60, 61, 96, 97, 98, 101, 102, 11544];
 pub const KEY_TYPES: &[i64] = &[0, 1, 2, 3, 4, 5, 6];
 pub const KEY_OPS: &[i64] = &[1, 2, 3, 4, 5, 6, 7, 8, 9, 10];
 pub const CURVES: &[i64] = &[0, 1, 2, 3, 4, 5, 6, 7, 8];
@@ -210,6 +210,14 @@ pub fn header_palette() -> &'static Vec<MHeader> {
     // ... and an extra parameter whose value is a small bignum (tag 2), which the CBOR layer
     // folds into a plain integer when parsing
     v.push(MHeader { rest: vec![(MLabel::Int(1000), MValue::Tag(2, Box::new(MValue::Bytes(vec![1]))))], ..h() }); // 29
+    // pairs that differ only INSIDE a structured extra-parameter value of the same shape
+    // (an x5chain-like array of one certificate; a one-entry map): anything that summarises a
+    // header by its shape would conflate them
+    v.push(MHeader { rest: vec![(MLabel::Int(33), MValue::Array(vec![MValue::Bytes(b"cert-A".to_vec())]))], ..h() });
+    v.push(MHeader { rest: vec![(MLabel::Int(33), MValue::Array(vec![MValue::Bytes(b"cert-B".to_vec())]))], ..h() });
+    v.push(MHeader { rest: vec![(MLabel::Int(1001), MValue::Map(vec![(MValue::Int(1), MValue::Text("a".into()))]))], ..h() });
+    v.push(MHeader { rest: vec![(MLabel::Int(1001), MValue::Map(vec![(MValue::Int(1), MValue::Text("b".into()))]))], ..h() });
+    v.push(MHeader { rest: vec![(MLabel::Int(1001), MValue::Map(vec![(MValue::Int(2), MValue::Text("a".into()))]))], ..h() });
     // protected bstr whose serialised length sits exactly on each CBOR head boundary
     // ({4: kid} encodes as a1 04 <head> <kid>): 23, 24, 255, 256 bytes here; 65535 and 65536 are
     // appended last (rarely picked, they are expensive)
